@@ -34,7 +34,7 @@ let txth (toks : string list) : string =
       | "R" :: r -> ops acc r      (* save + load in mid-history: the identity on title and entries (C06_history_round_trip) *)
       | [] -> List.rev acc
       | x :: _ -> failwith ("txth: bad token " ^ x) in
-    (match TextCodec.history_file Checked fmt endian (ops [] rest) with
+    (match TextCodec.history_file name_key Checked fmt endian (ops [] rest) with
      | Err e -> "ser=" ^ herr e
      | Panic _ -> "ser=PANIC"
      | Ok f ->
